@@ -72,6 +72,17 @@ func replayJson(line []byte, a *Acc) {
 			one(fmt.Sprintf("json:bytes:%s:safe=%v", c.Shape, c.Safe), fmt.Sprintf("Json = %q, specification %q", b, c.X))
 			continue
 		}
+		// the safe flag spelled out: JsonIndent(.., false) is the default encoding, JsonIndent(.., true) the safe one
+		if bx, ex := m.JsonIndent("", " ", c.Safe); ex != nil || !sameJSONBytes(bx, b) || string(bx) != string(bi) {
+			one(fmt.Sprintf("json:indent-flag:safe=%v", c.Safe), fmt.Sprintf("JsonIndent(\"\", \" \", %v) = %q (err %v), Json(%v) = %q", c.Safe, bx, ex, c.Safe, b))
+			continue
+		}
+		if !c.Safe {
+			if bd, ed := m.JsonIndent("", " "); ed != nil || string(bd) != string(bi) {
+				one("json:indent-flag:absent", fmt.Sprintf("JsonIndent without a flag = %q (err %v), with the flag false %q", bd, ed, bi))
+				continue
+			}
+		}
 		// nothing to indent with: still the requested encoding (default / safe), one value
 		if b0, e0 := m.JsonIndent("", "", c.Safe); e0 != nil || !sameJSONBytes(b0, b) {
 			one(fmt.Sprintf("json:indent-empty:safe=%v", c.Safe), fmt.Sprintf("JsonIndent(\"\", \"\", %v) = %q (err %v) does not compact to Json = %q", c.Safe, b0, e0, b))
@@ -184,7 +195,15 @@ func replayJsonIn(line []byte, a *Acc) {
 			okind = "other"
 		}
 	}
-	if l.Kind != "empty" && okind != l.Kind {
+	if l.Kind == "range" {
+		// a numeral beyond float64: an error for the float64 decoder (the oracle above), a value when numbers are kept as text
+		if okind != "bad" {
+			a.mu.Lock()
+			a.Fatal = fmt.Sprintf("oracle disagreement on %q: specification says out of range, encoding/json says %s", l.Text, okind)
+			a.mu.Unlock()
+			return
+		}
+	} else if l.Kind != "empty" && okind != l.Kind {
 		a.mu.Lock()
 		a.Fatal = fmt.Sprintf("oracle disagreement on %q: specification says %s, encoding/json says %s", l.Text, l.Kind, okind)
 		a.mu.Unlock()
@@ -198,7 +217,21 @@ func replayJsonIn(line []byte, a *Acc) {
 			one("jsonin:panic", p)
 			continue
 		}
-		if (err == nil) != l.Accept {
+		accept := l.Accept
+		shape := l.Shape
+		if l.Kind == "range" && useNumber {
+			var w interface{}
+			dn := json.NewDecoder(strings.NewReader(l.Text))
+			dn.UseNumber()
+			if dn.Decode(&w) == nil {
+				accept = true
+				shape = "value"
+				if _, isList := w.([]interface{}); isList {
+					shape = "wrapped"
+				}
+			}
+		}
+		if (err == nil) != accept {
 			lead := "plain"
 			if strings.TrimLeft(l.Text, " \n\t") != l.Text {
 				lead = "leading-ws"
@@ -230,7 +263,7 @@ func replayJsonIn(line []byte, a *Acc) {
 			d.UseNumber()
 		}
 		d.Decode(&want)
-		switch l.Shape {
+		switch shape {
 		case "empty":
 			if m == nil || len(m) != 0 {
 				one("jsonin:empty", fmt.Sprintf("returned %s", tagged.CanonGo(m)))
